@@ -18,8 +18,10 @@ pub enum Site {
     Gate(usize, u8),
     /// several wires of one gate at once (index into GATE2_KINDS)
     Gate2(usize, usize),
-    /// the constants of two explicit constraints shifted by +delta and -delta
-    KPair(usize, usize),
+    /// the constants of two explicit constraints shifted by +m1*delta and -m2*delta; mode 0: m1 = m2 = 1
+    /// (rows sharing a weight), mode 1: m1 = row index of the second + 1, m2 = row index of the first + 1
+    /// (weights proportional to the row number instead of powers of z)
+    KPair(usize, usize, u8),
 }
 
 /// (sign of the shift on l, r, o; recompute o = l*r afterwards)
@@ -42,7 +44,7 @@ impl Site {
             Site::KStruct(k) => json!({"kind": "constant-structural", "index": k}),
             Site::Gate(g, f) => { let fl = ["l", "r", "o"][*f as usize]; json!({"kind": "gate", "index": g, "field": fl}) }
             Site::Gate2(g, k) => json!({"kind": "gate2", "index": g, "field": GATE2_KINDS[*k].2}),
-            Site::KPair(a, b) => json!({"kind": "constant-pair", "index": a, "second": b}),
+            Site::KPair(a, b, m) => json!({"kind": "constant-pair", "index": a, "second": b, "mode": m}),
         }
     }
     pub fn from_json(v: &Value) -> Site {
@@ -51,7 +53,7 @@ impl Site {
             "witness" => Site::Witness(i),
             "constant" => Site::KConst(i),
             "constant-structural" => Site::KStruct(i),
-            "constant-pair" => Site::KPair(i, v["second"].as_u64().unwrap() as usize),
+            "constant-pair" => Site::KPair(i, v["second"].as_u64().unwrap() as usize, v["mode"].as_u64().unwrap_or(0) as u8),
             "gate2" => Site::Gate2(i, GATE2_KINDS.iter().position(|k| Some(k.2) == v["field"].as_str()).unwrap()),
             _ => Site::Gate(i, ["l", "r", "o"].iter().position(|x| Some(*x) == v["field"].as_str()).unwrap() as u8),
         }
@@ -61,7 +63,7 @@ impl Site {
             Site::Witness(i) => Dev::Witness { idx: *i, delta },
             Site::KConst(k) => Dev::KConst { k: *k, delta, both: true },
             Site::KStruct(_) => unreachable!(),
-            Site::KPair(a, b) => Dev::KConstPair { k1: *a, k2: *b, delta },
+            Site::KPair(a, b, _) => Dev::KConstPair { k1: *a, k2: *b, delta, m1: F::one(), m2: F::one() },
             Site::Gate(g, f) => Dev::Gate { gate: *g, field: *f, delta },
             Site::Gate2(g, k) => {
                 let sg = |x: i8| if x > 0 { delta } else if x < 0 { -delta } else { F::zero() };
@@ -84,7 +86,8 @@ pub fn sites(p: &Program) -> Vec<Site> {
     }
     for a in 0..k {
         for b in a + 1..k {
-            out.push(Site::KPair(a, b));
+            out.push(Site::KPair(a, b, 0));
+            out.push(Site::KPair(a, b, 1));
         }
     }
     for i in 0..g {
@@ -123,6 +126,15 @@ pub fn run_case<G: Cv>(env: &Env<G>, c: &Case, seed: u64) -> Out {
     let delta = deltas::<G::ScalarField>(seed)[c.delta.min(2)];
     let dev = match &c.site {
         Site::KStruct(k) => Dev::KConstStruct { k: *k, sel: c.delta },
+        Site::KPair(a, b, 1) => {
+            // row numbers of the two explicit constraints in the full constraint list, taken from
+            // an honest run of the same program (phase-2 rows exist only once the closures ran)
+            let rows = guarded(|| program::prove::<G>(&c.prog, &env.pc, &env.bp, seed, "c02-rows", Dev::None).ctx.refcs.k_index.clone());
+            match rows {
+                Ok(r) if *a < r.len() && *b < r.len() => Dev::KConstPair { k1: *a, k2: *b, delta, m1: G::ScalarField::from((r[*b] + 1) as u64), m2: G::ScalarField::from((r[*a] + 1) as u64) },
+                _ => return Out::NoProof("precondition: the statement cannot be constructed".into()),
+            }
+        }
         s => s.dev(delta),
     };
     if !c.hist.is_empty() {
@@ -266,8 +278,26 @@ pub fn cases(tier: Tier) -> (Vec<Case>, Value) {
             }
         }
     }
-    let b = json!({"history_cases": n_hist, "histories": "every history of earlier same-thread calls (history.rs alphabet) of depth 1 in front of every single-site case of four subjects", "program_space": desc, "size_family": format!("S({})", sn), "programs": all.len(),
-        "sites": "every witness input (C value, A value, M inputs; both phases) shifted on the prover only; every explicit constraint constant shifted on both roles; every pair of explicit constraints with constants shifted by +delta / -delta on both roles (two violated rows with cancelling residuals); every gate x {l,r,o} overwritten through hook H1; every gate x 7 multi-wire patterns (opposite / equal shifts on two wires, with and without a recomputed output)",
+    // many rows: index widths in the constraint weights (rows whose weights collide once a
+    // counter wraps at 2^8), 300 explicit constraints over two commitments
+    let long = Program::parse(&format!("C C {}", "Ka Kb ".repeat(150))).expect("long program");
+    let mut n_long = 0;
+    for c in CURVES.iter() {
+        for r in [0usize, 1, 2, 3, 20, 43] {
+            for off in [255usize, 256] {
+                for mode in [0u8, 1] {
+                    out.push(Case { curve: c, prog: long.clone(), site: Site::KPair(r, r + off, mode), delta: 0, hist: vec![] });
+                    n_long += 1;
+                }
+            }
+        }
+        for r in [0usize, 1, 255, 256, 257, 299] {
+            out.push(Case { curve: c, prog: long.clone(), site: Site::KConst(r), delta: 0, hist: vec![] });
+            n_long += 1;
+        }
+    }
+    let b = json!({"long_program_cases": n_long, "long_program": "C C (Ka Kb) x 150: single constants at rows 0, 1, 255, 256, 257, 299 and pairs (r, r+255), (r, r+256) in both pair modes", "history_cases": n_hist, "histories": "every history of earlier same-thread calls (history.rs alphabet) of depth 1 in front of every single-site case of four subjects", "program_space": desc, "size_family": format!("S({})", sn), "programs": all.len(),
+        "sites": "every witness input (C value, A value, M inputs; both phases) shifted on the prover only; every explicit constraint constant shifted on both roles; every pair of explicit constraints with constants shifted by +delta / -delta, and by +(j+1)delta / -(i+1)delta for rows number i < j, on both roles (two violated rows whose residuals cancel if their weights are equal resp. proportional to the row number); every gate x {l,r,o} overwritten through hook H1; every gate x 7 multi-wire patterns (opposite / equal shifts on two wires, with and without a recomputed output)",
         "deltas": DELTA_NAMES});
     (out, b)
 }
